@@ -47,7 +47,7 @@ W_C16 = {'ops': OPS_C16, 'classes': [1, 1, 1, 1, 1, 5, 5, 5, 3, 0, 0, 2, 4, 7]}
 def run(ctx):
     c05.env(True)
     c05.env(False)
-    n = ctx.budget(3000, 30000)
+    n = ctx.budget(3000, 18000)
     c05.drive(ctx, 'C16', W_C16, n, 25 if ctx.tier == 'quick' and not ctx.deep else 50)
 
 
